@@ -209,6 +209,8 @@ class KmipEngine(object):
                 the request batch items.
         """
         self._client_identity = [None, None]
+        # The ID placeholder is only valid within a single request batch.
+        self._id_placeholder = None
         header = request.request_header
 
         # Process the protocol version
